@@ -192,6 +192,9 @@ def gen(ctx):
     add("sigstop", Q, Q, ["c0:pause=%d,%d" % (rng.randrange(1000, 200000), rng.randrange(1000, 8000))])
     add("no-proxy-30s", Q, Q, ["c0:blackout=%d,30000" % rng.randrange(1000, 200000)])
     add("no-proxy-30s", M, Q, ["c0:blackout=%d,%d" % (rng.randrange(0, 100), 30000)], mx=1, proxies=1)
+    # no proxy at all for two and a half minutes (beyond the server's one-minute retention and well beyond any keep-alive
+    # interval, below the ten-minute keep-alive timeouts): the session must still be alive and resume when proxies return
+    add("no-proxy-150s", Q, Q, ["c0:blackout=%d,150000" % rng.randrange(1000, 200000)])
     add("no-proxy-at-start", 64 * KIB, 64 * KIB, ["t:blackout=0,25000"], proxies=1)
     add("cut-during-redial", Q, Q, ["c0:cutu=%d" % rng.randrange(1000, 200000), "c1:cutu=%d" % rng.choice([0, 5, 6, 13, 14, 15, 22]),
                                     "c2:cutu=%d" % rng.choice([0, 14, 27, 28])])
